@@ -582,6 +582,14 @@ class System:
                         comp._component_type.name
                     )
                 )
+        # check that the new component allows the existing childs
+        for c in self._g.successor_indices(eidx):
+            if not self._g[c]._component_type in comp._child_types:
+                raise ValueError(
+                    "Component does not allow child of type {}!".format(
+                        self._g[c]._component_type.name
+                    )
+                )
         self._g[eidx] = comp
         # replace node name in graph dict
         del [self._g.attrs["nodes"][name]]
